@@ -124,6 +124,15 @@ func (listener *tcpLineListener) run() {
 			break
 		}
 
+		if listener.stopRequest.Peek() {
+			// stopping: the sockets of established connections are being released, and their numbers (the client
+			// numbers) would be handed to this connection while the sinks of their previous owners are still open
+			if err := newConn.Close(); err != nil {
+				listener.logger.Warn("error closing connection accepted during stop: ", err)
+			}
+			continue
+		}
+
 		newClientNumber := base.ClientNumber(util.GetFDFromTCPConnOrPanic(newConn))
 		newConnLogger := listener.logger.WithFields(logger.Fields{
 			defs.LabelPart:         "connection",
